@@ -145,8 +145,7 @@ class P_pdb(StructureParser):
                 # make sure line has 80 characters
                 if len(line) < 80:
                     line = "%-80s" % line
-                words = line.split()
-                record = words[0]
+                record = line[:6].strip()
                 if record == "TITLE":
                     continuation = line[8:10]
                     if continuation.strip():
